@@ -23,6 +23,16 @@ CLAIMS = {
             "Trusted: engine B, bytearray.reverse()/index-store semantics. Elements are integers in [0,255].",
             "abstract interpretation over an abstract buffer (generic element, affine domain) + def-use taint rule",
             "B", "DESIGN.md section 4, C08"),
+    "C10": ("other",
+            "Decides: flip_msb is an involution fixing 0 and 128 on all 256 values, length-preserving and element-local "
+            "(abstract interpretation, bit operations as div/mod identities, translate tables as piecewise-affine runs); "
+            "swap_multiples rejects negative and returns on zero before any mutation (all paths) and mutates only by "
+            "two-index swaps (length and multiset preserved); interleave/deinterleave keep the length and their index "
+            "schedule never reads the contents. Does NOT decide: interleave/deinterleave mutual inverseness and "
+            "swap_multiples involution/fixed non-multiples (listed as undecided in evidence).",
+            "Trusted: engine A/B. An unknown mutation idiom is an ANALYSIS-ERROR, not a verdict.",
+            "abstract interpretation over an abstract buffer + structural mutation-idiom and def-use taint rules",
+            "A+B", "DESIGN.md section 4, C10"),
     "C11": ("proof",
             "server_verification_hash and the published formula (C remainder written through floor-mod) are interpreted "
             "over one shared path state; their difference must be the zero form on every path, for the whole 3-byte "
